@@ -66,7 +66,10 @@ def all_shallow():
 
 
 TYPE_KINDS = ["opaque", "struct", "outstruct", "enum", "opaque_enum"]       # `#[diplomat::opaque] enum` is parsed by its own constructor
-KINDS = ["type-disable", "method-disable", "impl-disable", "module-disable", "type-rename", "method-rename", "impl-rename", "module-rename", "trait-disable"]
+KINDS = ["type-disable", "method-disable", "impl-disable", "module-disable", "type-rename", "method-rename", "impl-rename", "module-rename", "trait-disable",
+         # the same payload written as several attributes with different conditions (on one item, or on the impl block and on a method in it):
+         # the item is affected where *any* of the conditions holds
+         "type-disable-split", "method-disable-split", "method-rename-split"]
 
 
 def probe_source(probes, with_attrs):
@@ -93,6 +96,20 @@ def probe_source(probes, with_attrs):
                 i_attr = "    #[diplomat::attr(%s, rename = \"zzrn%di{0}\")]\n" % (cond, k)
             elif kind == "module-rename":
                 mod_attr = "#[diplomat::attr(%s, rename = \"Zzrn%dq{0}\")]\n" % (cond, k)
+        if with_attrs and kind.endswith("-split"):
+            # (two attributes with the same payload that both apply to one backend are rejected as duplicates: split only disjoint conditions)
+            disjoint = f[0] == "any" and len(f[1]) >= 2 and all(sum(1 for x in f[1] if feval(x, b_)) <= 1 for b_ in NAMES)
+            parts = [fstr(x) for x in f[1]] if disjoint else [cond]
+            if kind == "type-disable-split":
+                t_attr = "".join("    #[diplomat::attr(%s, disable)]\n" % c_ for c_ in parts)
+            elif kind == "method-disable-split":
+                # first condition on the impl block, the others on the method itself (methods pa and pb share the impl: only pa gets the rest)
+                if len(parts) > 1:
+                    m_attr = "".join("        #[diplomat::attr(%s, disable)]\n" % c_ for c_ in parts[1:]) + "        #[diplomat::attr(%s, disable)]\n" % parts[0]
+                else:
+                    m_attr = "        #[diplomat::attr(%s, disable)]\n" % parts[0]
+            else:
+                m_attr = "".join("        #[diplomat::attr(%s, rename = \"zzrn%dm\")]\n" % (c_, k) for c_ in parts)
         tk = TYPE_KINDS[k % len(TYPE_KINDS)]
         if tk == "opaque":
             decl = "    #[diplomat::opaque]\n    pub struct %s(pub u8);\n" % ty
@@ -253,7 +270,10 @@ def main(tier, seed):
                         sym["destroy"] = bool(type_files(fa, ty)) or sym["pb"] or sym["mk"] or kind.endswith("rename")
 
                 def bad(msg):
-                    out["viol"].append((b, k, kind, f, v, msg))
+                    out["viol"].append((b, k, kind0, f, v, msg))
+                kind0 = kind
+                if kind.endswith("-split"):
+                    kind = kind[:-6]
                 if kind in ("type-disable", "module-disable"):
                     present = any(sym.values()) or bool(type_files(fa, ty))
                     if v and present:
